@@ -19,7 +19,8 @@ ASSUMPTIONS = ["generator AST = ground truth (the reference reader must agree wi
                "the accept/reject boundary of the type check is the subtype closure of the generated type tree"]
 SHARDS = {"quick": 16, "thorough": 16}
 
-NUMERALS = ["7", "-2.50", ".5", "1e3", "-0.125", "0", "3.25", "-4", "0.0625", "12.5"]
+NUMERALS = ["7", "-2.50", ".5", "1e3", "-0.125", "0", "3.25", "-4", "0.0625", "12.5", "1e-05", "6.666666666666667e-05",
+            "0.30000000000000004", "-3.3e-07", "123456789.125"]
 
 
 def observe_problem(pr):
@@ -35,7 +36,11 @@ def observe_problem(pr):
         k = tuple(t[1])
         if k in fl:
             dup.append(k)
-        fl[k] = model.to_frac(t[2])
+        # the value is read from the object, not from its printed form (which goes through the code under test on both
+        # sides of a round trip and would cancel a lossy number format out); the printed numeral must denote it too
+        fl[k] = Fraction(float(f.value))
+        if float(model.to_frac(t[2])) != float(f.value):
+            dup.append(("printed-value-differs", k, t[2], repr(f.value)))
     goals = [(bool(g.is_positive), (g.name,) + tuple(g.grounded_objects)) for g in pr.goal_state_predicates]
     ngoals = sorted(repr(model.canon_expr(sx.read(t.to_pddl()))) for t in pr.goal_state_fluents)
     return {"name": pr.name, "objects": objs, "atoms": atoms, "fluents": fl, "goals": goals, "numeric_goals": ngoals, "dup": dup}
@@ -121,7 +126,7 @@ def gen_problem(rng, w):
     fluents = {}
     for k in fl_all:
         if rng.random() < (0.7 if dens else 0.0):
-            fluents[k] = model.to_frac(rng.choice(NUMERALS))
+            fluents[k] = Fraction(float(model.to_frac(rng.choice(NUMERALS))))
     goal = ["and"]
     for a in rng.sample(atoms_all, min(len(atoms_all), rng.randint(0, 3))):
         goal.append(list(a))
@@ -247,7 +252,7 @@ def run(ctx):
             items = gen.W.typed_items(pairs, style)
             numerals = {}
             for k in fluents:
-                cands = [n for n in NUMERALS if model.to_frac(n) == fluents[k]]
+                cands = [n for n in NUMERALS if Fraction(float(model.to_frac(n))) == fluents[k]]
                 if cands:
                     numerals[k] = rng.choice(cands)
             name = rng.choice(["prob", "p-01", "pfile_7"])
@@ -256,7 +261,8 @@ def run(ctx):
             exp = expected_problem(w, name, w.objects, atoms, fluents, goal)
             # generator vs reference reader
             rp = model.RefProblem.from_text(text)
-            if rp.objects != exp["objects"] or rp.atoms != exp["atoms"] or rp.fluents != exp["fluents"]:
+            if rp.objects != exp["objects"] or rp.atoms != exp["atoms"] or \
+                    {k: float(v) for k, v in rp.fluents.items()} != {k: float(v) for k, v in exp["fluents"].items()}:
                 ctx.violation("harness:generator-vs-reference-reader", {"text": text})
                 continue
             feats = {"objects:" + style}
@@ -296,7 +302,7 @@ def run(ctx):
                 d.append(f"fluents listed twice after parsing: {obs['dup']}")
             if d:
                 # known finding KF-REPEATED-ARGS: attribute only if the observation equals the defect emulation
-                init_items = [(tuple(f[1]), model.to_frac(f[2])) for f in ast[4][1:] if f[0] == "=" and isinstance(f[1], list)]
+                init_items = [(tuple(f[1]), Fraction(float(model.to_frac(f[2])))) for f in ast[4][1:] if f[0] == "=" and isinstance(f[1], list)]
                 emu = dict(exp)
                 emu["fluents"] = model.emulate_fluent_store(init_items)
                 emu["numeric_goals"] = sorted(repr(model.canon_expr(collapse_terms(g, w))) for g in goal[1:] if g[0] in model.CMP)
